@@ -381,17 +381,27 @@ impl CodegenContext {
             })
             .map(|(_, (nx, _))| nx)
             .collect_vec();
-        for nx in outdated {
-            // A symbol without a value would still hide an outer symbol of the same name, so take it out altogether
-            // (unless it is also a scope that holds other symbols)
-            if self.symbols.children(nx).is_empty() {
+        // A symbol without a value would still hide an outer symbol of the same name, so take it out altogether (unless it
+        // is also a scope that holds other symbols). The table lists the symbols in no particular order: the symbols inside
+        // an outdated scope go first, whatever their position in the list, so that a scope which loses everything goes too.
+        let mut outdated = outdated;
+        loop {
+            let (gone, rest): (Vec<_>, Vec<_>) = outdated
+                .into_iter()
+                .partition(|nx| self.symbols.children(*nx).is_empty());
+            outdated = rest;
+            if gone.is_empty() {
+                break;
+            }
+            for nx in gone {
                 self.symbols.remove(nx);
                 // The index will be handed out again, possibly to another symbol
                 self.analysis
                     .remove_definition(&DefinitionType::Symbol(nx));
-            } else {
-                self.symbols.update_data(nx, None);
             }
+        }
+        for nx in outdated {
+            self.symbols.update_data(nx, None);
         }
     }
 
